@@ -3,6 +3,7 @@ package main
 import (
 	"fmt"
 	"strings"
+	"time"
 
 	"verif/engine/smt"
 	"verif/engine/sym"
@@ -46,6 +47,7 @@ func runC17(r *Run) {
 					em.Assert(em.Cons(c))
 				}
 			}
+			facts := em.String()
 			em.Assert("(or false " + strings.Join(ors, " ") + ")")
 			inst, wrp := in, wr
 			byName := map[string]*leafInfo{}
@@ -55,20 +57,59 @@ func runC17(r *Run) {
 			r.Add(&Ob{Name: fmt.Sprintf("canonical[%s/%s]", in.Name, wr), Family: "canonical-encoding", Script: em.String(), Values: names, Site: "canonicity of proof elements",
 				Bound: fmt.Sprintf("%d Goldilocks-valued proof positions of %s (%s wrapper), all values in [0,r)", len(pos), in.Name, wr),
 				OnFail: func(res smt.Result) *Violation {
-					// pick a position with value >= p in the model and replay: honest proof, that leaf + p
-					for n, v := range res.Model {
-						if v.Cmp(P) >= 0 {
-							l := byName[n]
-							if l == nil {
+					// pick positions with value >= p in the model (one per kind of proof element) and replay:
+					// honest proof, that leaf + p
+					// the model names one position; ask the solver, per kind of proof element, whether its
+					// first position can be >= p as well (the facts are the same script without the goal)
+					kinds := map[string]*leafInfo{}
+					var order []string
+					for _, l := range pos {
+						k := stripIdx(l.Path) + lastIdx(l.Path)
+						if kinds[k] != nil {
+							continue
+						}
+						if v, ok := res.Model[l.Atom.Name]; ok && v.Cmp(P) >= 0 {
+							kinds[k] = l
+							order = append([]string{k}, order...)
+							continue
+						}
+						q := r.pool.Solve(&smt.Query{Script: facts + fmt.Sprintf("(assert (>= %s %s))", em.Ref(l.Atom), P), Solver: "z3", Timeout: 20 * time.Second})
+						if q.Status == smt.Sat {
+							kinds[k] = l
+							order = append(order, k)
+						} else {
+							kinds[k] = &leafInfo{}
+						}
+					}
+					skipHonest := false
+					for i, k := range order {
+						if i >= 10 {
+							break
+						}
+						l := kinds[k]
+						if l.Atom == nil {
+							continue
+						}
+						// first with the repository's own hint code, then with hint code that does not refuse
+						// operands >= p (those refusals are solver-side, not constraints)
+						for _, lenient := range []bool{false, true} {
+							if !lenient && skipHonest {
 								continue
 							}
-							cr := &circuitReplay{Kind: "circuit", Wrapper: wrp, Instance: inst.Base, K: inst.K, Edits: []edit{{Path: l.Path, Add: P.String()}}, Expect: "accepted"}
+							cr := &circuitReplay{Kind: "circuit", Wrapper: wrp, Instance: inst.Base, K: inst.K, Edits: []edit{{Path: l.Path, Add: P.String()}}, Expect: "accepted", Lenient: lenient}
 							acc, msg := runCircuitReplay(cr, r.Repo)
 							if !acc {
-								r.Note("replay %s + p rejected: %s", l.Path, msg)
+								if !lenient && strings.Contains(msg, "not in the field") {
+									skipHonest = true
+								}
+								r.Note("replay %s + p (lenient hints: %v) rejected: %s", l.Path, lenient, short(msg, 80))
 								continue
 							}
-							return &Violation{Site: "no canonical range check on " + stripIdx(l.Path), What: fmt.Sprintf("proof element %s may be replaced by value + p (non-canonical encoding accepted)", l.Path), Replay: toMap(cr), Outcome: "real circuit (test.IsSolved) accepts the honest proof with this element replaced by element + p"}
+							how := "real circuit (test.IsSolved) accepts the honest proof with this element replaced by element + p"
+							if lenient {
+								how += " when the prover's hint code does not refuse operands >= p"
+							}
+							return &Violation{Site: "no canonical range check on " + k, What: fmt.Sprintf("proof element %s may be replaced by value + p (non-canonical encoding accepted)", l.Path), Replay: toMap(cr), Outcome: how}
 						}
 					}
 					return nil
@@ -82,6 +123,16 @@ func runC17(r *Run) {
 	r.Bounds["values"] = "every value in [0,r) for every position simultaneously (covers value + k*p for every k that fits)"
 	r.Assumptions = append(r.Assumptions, "a canonical range check is recognised as a call of goldilocks.(*Chip).RangeCheck on the raw input (contract: x < p, established per configuration in C06); other constraints are dropped, which only enlarges the accepted set")
 	r.Outside = append(r.Outside, "public inputs (the property lists proof elements only; the wrapper's public inputs are C03)", "BN254 hash values (not Goldilocks elements)")
+}
+
+// lastIdx returns the last index of the path (the limb of an extension element), as a suffix.
+func lastIdx(p string) string {
+	i := strings.LastIndex(p, "[")
+	j := strings.LastIndex(p, "]")
+	if i < 0 || j < i {
+		return ""
+	}
+	return " (last index " + p[i+1:j] + ")"
 }
 
 func stripIdx(p string) string {
